@@ -21,7 +21,7 @@ from peptacular.proforma.proforma_parser import parse, ProFormaAnnotation
 from peptacular.proforma.proforma_dataclasses import Mod, Interval
 from peptacular.fragmentation import Fragment, Fragmenter
 import peptacular.score as sc
-from peptacular.mods import mod_db
+from peptacular.mods import mod_db_setup as mod_db
 
 
 # ---------------------------------------------------------------- shared objects
@@ -90,7 +90,7 @@ def db_state():
     for name in ('UNIMOD_DB', 'PSI_MOD_DB', 'XLMOD_DB', 'RESID_DB', 'GNO_DB', 'MONOSACCHARIDES_DB'):
         db = getattr(mod_db, name, None)
         if db is not None:
-            out.append((name, len(getattr(db, 'id_to_entry', getattr(db, '_id_to_entry', {})) or {}) if hasattr(db, '__dict__') else 0))
+            out.append((name, len(db.id_map), len(db.name_map), len(db.synonym_map)))
     return out
 
 
